@@ -798,6 +798,28 @@ func TestEngine(t *testing.T) {
 			js, _ := json.MarshalIndent(st, "", " ")
 			os.WriteFile(*flagOut+".stats.json", js, 0o644)
 			os.Exit(17) // goroutines of the servers' proxies are still parked: a bubble cannot end cleanly
+		case "lease", "restore":
+			if *flagEngine == "lease" {
+				st.Rule = "3 or 5 real servers (optionally one non-voter), fault-free stretch of 2..22 virtual seconds with writes (leadership must not change), then the leader is cut off from every other voter at a recorded instant (a non-voter stays connected) and must give up leadership within 2 x LeaderLeaseTimeout and refuse writes afterwards"
+			} else {
+				st.Rule = "3 real servers, gap-tolerant or monotonic log stores; some writes; optionally one follower cut off; 0..3 writes in flight; user Restore on the leader with snapshot index 1 / last / last+1..5 / last/2 and 0..4 payloads; more writes; heal; 15 s quiet; final writes and dumps"
+			}
+			for k := 0; k < *flagN; k++ {
+				if *flagOnly >= 0 && k != *flagOnly {
+					continue
+				}
+				r := rand.New(rand.NewSource(*flagSeed*1000003 + int64(k)))
+				if *flagEngine == "lease" {
+					runLeaseCase(r, out, st, k)
+				} else {
+					runRestoreCase(r, out, st, k)
+				}
+			}
+			out.Flush()
+			fh.Close()
+			js, _ := json.MarshalIndent(st, "", " ")
+			os.WriteFile(*flagOut+".stats.json", js, 0o644)
+			os.Exit(17)
 		case "universe":
 			st.Rule = "one real server (a voter) in a Raft-consistent universe: the harness keeps a committed history H and one log per elected term (each holding H as of its election) and produces the AppendEntries / InstallSnapshot / RequestVote / RequestPreVote messages such leaders and candidates could send (stale nextIndex, stale commit index, old terms included); every message stays in a pool and is delivered late, twice or out of order; 1/10 of the deliveries with a failing store write, 1/10 with a crash at a write ordinal, restarts; the initial image is a prefix of some leader's log, optionally snapshotted and compacted; non-trivial = some request was granted / succeeded"
 			seen := map[string]bool{}
